@@ -368,6 +368,9 @@ func (g *Gen) buildTx() *Step {
 		if mode != ModeValid && g.R.Chance(0.12) {
 			g.misdirectOneID(m)
 		}
+		if !strings.HasPrefix(kind, "ICA") && g.R.Chance(0.04) {
+			g.duplicateOneListEntry(m) // the same issuer / class / credit entry / hash / update twice in one list
+		}
 		if mode == ModeHostile && !strings.HasPrefix(kind, "ICA") && g.R.Chance(0.2) {
 			g.malformOneField(m)
 		}
@@ -613,6 +616,38 @@ func (g *Gen) malformOneField(m sdk.Msg) {
 	default: // drop a sub-message
 		g.mutateAggregate(reflect.ValueOf(m), false)
 	}
+}
+
+// duplicateOneListEntry appends a copy of one element to one non-empty list of the message
+// (which validation accepts for some lists and rejects for others).
+func (g *Gen) duplicateOneListEntry(m sdk.Msg) {
+	v := reflect.ValueOf(m)
+	for v.Kind() == reflect.Ptr || v.Kind() == reflect.Interface {
+		if v.IsNil() {
+			return
+		}
+		v = v.Elem()
+	}
+	if v.Kind() != reflect.Struct {
+		return
+	}
+	var cands []reflect.Value
+	for i := 0; i < v.NumField(); i++ {
+		f := v.Field(i)
+		if v.Type().Field(i).PkgPath != "" || !f.CanSet() {
+			continue
+		}
+		if f.Kind() == reflect.Slice && f.Type().Elem().Kind() != reflect.Uint8 && f.Len() > 0 && f.Len() < 40 {
+			cands = append(cands, f)
+		}
+	}
+	if len(cands) == 0 {
+		return
+	}
+	f := cands[g.R.Intn(len(cands))]
+	e := f.Index(g.R.Intn(f.Len()))
+	f.Set(reflect.Append(f, e))
+	g.W.Probe("list_entry_duplicated")
 }
 
 // mutateAggregate empties one non-empty slice (list=true) or nils one non-nil message pointer
